@@ -327,17 +327,7 @@ func (w *SimWriter) Write(p []byte) (int, error) {
 			n = 0
 		}
 		w.sink = append(w.sink, p[:n]...)
-		var err error
-		if e.Short {
-			err = io.ErrShortWrite
-		} else {
-			se := w.errs[e.ID]
-			if se == nil {
-				se = &SimErr{Who: "writer", ID: e.ID}
-				w.errs[e.ID] = se
-			}
-			err = se
-		}
+		err := w.errFor(e.Short, e.Err, e.ID)
 		w.faults++
 		w.raised = append(w.raised, err)
 		if n > 0 {
